@@ -408,7 +408,11 @@ impl CommandBuilder<'_> {
         if let Some(replace_str) = &self.options.replace {
             // Replace all occurrences in initial args with the extra arg,
             // Thanks to `MaxArgsCommandSizeLimiter`, we only process a single extra arg here.
-            let replacement = self.extra_args[0].to_string_lossy();
+            // With no input there is no line to substitute: run nothing.
+            let Some(first_extra_arg) = self.extra_args.first() else {
+                return Ok(CommandResult::Success);
+            };
+            let replacement = first_extra_arg.to_string_lossy();
             let initial_args: Vec<OsString> = initial_args
                 .iter()
                 .map(|arg| {
